@@ -117,6 +117,17 @@ def defs (c : Call) (st : State) : State × G :=
 def consG (first rest out : Term) : G := eqG ord (.cons first rest) out
 def emptyG (s : Term) : G := eqG ord .nil s
 
+/-- `first(list, first)` = `|rest| { cons(first, rest, list) }`; `rest(list, rest)` = `|first| { cons(first, rest, list) }`.
+    The fresh variable is drawn from the state's counter when the goal is solved. -/
+def firstG (dfs : Bool) (list first : Term) : G :=
+  .dyn (fun st => { st with nextVar := st.nextVar + 1 }) fun st =>
+    .fresh (if dfs then Goal.conjDOfList [consG ord first (.var st.nextVar) list]
+            else Goal.conjOfList [consG ord first (.var st.nextVar) list])
+def restG (dfs : Bool) (list rest : Term) : G :=
+  .dyn (fun st => { st with nextVar := st.nextVar + 1 }) fun st =>
+    .fresh (if dfs then Goal.conjDOfList [consG ord (.var st.nextVar) rest list]
+            else Goal.conjOfList [consG ord (.var st.nextVar) rest list])
+
 /-- `force_ans` (repaired: labels the fields of compound terms too); `n` bounds the term depth walked.
     `map_sum` over the domain in decreasing order builds the `mplus/delay` chain whose first element is
     the smallest value: `altOfList` over the increasing enumeration. -/
